@@ -34,6 +34,12 @@ class Arr:
 
 
 @dataclass
+class Raw:
+    """A raw (whole-heap-object) array value handed to lemma functions: arr(x) of some array."""
+    kind: str = "real"
+
+
+@dataclass
 class Arr2:
     kind: str = "real"
     dtype: str | None = None
@@ -72,6 +78,7 @@ class LoopSpec:
     invariants: list = field(default_factory=list)  # [(label, expr)]
     unroll: bool = False
     decreases: str | None = None
+    body_hints: list = field(default_factory=list)  # [(label, expr)] proved at the top of the body, then usable
 
 
 @dataclass
@@ -108,6 +115,10 @@ class Contract:
     notes: str = ""
     assumptions: list = field(default_factory=list)
     case_requires: dict = field(default_factory=dict)  # (name, case label) -> [exprs]
+    gen_spec: dict = field(default_factory=dict)  # consumer-side view of a generator: G, S, N, start, nchans, gulp
+    gen_requires: list = field(default_factory=list)  # consumer-side preconditions (on the arguments)
+    ghost_args: dict = field(default_factory=dict)  # callee short name -> {ghost param: expr in the caller's scope}
+    gen_copy: bool = False  # (consumer) the yielded block is written in place: model it as a fresh copy
     case_defs: dict = field(default_factory=dict)  # (name, case label) -> [(target path, expr)] definitional equalities
     bv_u1: bool = False  # model uint8 arrays allocated in the body as bit-vectors
     kind: str = "function"  # 'function' | 'race' | 'lemma'
